@@ -1,1 +1,690 @@
-(** Proofs/LoaderProofs.v — placeholder, to be written. *)
+(** Proofs/LoaderProofs.v — lemmas about Model/Loader.v (C19). *)
+From PV Require Import Loader.
+From Coq Require Import Lia.
+Open Scope string_scope.
+
+(** * Strings: reversal, splitting, joining *)
+
+Lemma str_rev_aux_twice x : forall a b,
+  str_rev_aux (str_rev_aux x a) b = str_rev_aux a (x ++ b).
+Proof.
+  induction x as [|d x IH]; intros a b; cbn.
+  - reflexivity.
+  - rewrite IH. reflexivity.
+Qed.
+
+Lemma str_rev_rev_onto x : str_rev (str_rev_aux x "") = x.
+Proof.
+  unfold str_rev. rewrite str_rev_aux_twice. cbn.
+  induction x; cbn; congruence.
+Qed.
+
+Lemma app_empty_r (x : string) : x ++ "" = x.
+Proof. induction x; cbn; congruence. Qed.
+
+Lemma app_assoc_s (x y z : string) : (x ++ y) ++ z = x ++ (y ++ z).
+Proof. induction x; cbn; congruence. Qed.
+
+(** a separator-free prefix followed by the separator is one field *)
+Lemma split_on_app c x : forall r cur,
+  contains_char c x = false ->
+  split_on c (x ++ String c r) cur = str_rev (str_rev_aux x cur) :: split_on c r "".
+Proof.
+  induction x as [|d x IH]; intros r cur H; cbn in *.
+  - rewrite Ascii.eqb_refl. reflexivity.
+  - apply orb_false_iff in H. destruct H as [Hd Hx]. rewrite Hd.
+    rewrite IH by assumption. reflexivity.
+Qed.
+
+Lemma split_on_nosep c x : forall cur,
+  contains_char c x = false -> split_on c x cur = [str_rev (str_rev_aux x cur)].
+Proof.
+  induction x as [|d x IH]; intros cur H; cbn in *.
+  - reflexivity.
+  - apply orb_false_iff in H. destruct H as [Hd Hx]. rewrite Hd. apply IH; assumption.
+Qed.
+
+Definition sep_free (c : ascii) (x : string) : Prop := contains_char c x = false.
+
+(** [split (join l) = l] for a non-empty list of separator-free fields *)
+Lemma split_on_join c (l : list string) :
+  l <> [] -> Forall (sep_free c) l ->
+  split_on c (join (String c "") l) "" = l.
+Proof.
+  induction l as [|x r IH]; intros Hne Hall; [congruence|].
+  inversion Hall as [|? ? Hx Hr]; subst.
+  destruct r as [|y r'].
+  - cbn. rewrite split_on_nosep by exact Hx. rewrite str_rev_rev_onto. reflexivity.
+  - change (join (String c "") (x :: y :: r'))
+      with (x ++ String c "" ++ join (String c "") (y :: r')).
+    change (String c "" ++ join (String c "") (y :: r'))
+      with (String c (join (String c "") (y :: r'))).
+    rewrite split_on_app by exact Hx. rewrite str_rev_rev_onto.
+    f_equal. apply IH; [congruence|assumption].
+Qed.
+
+Lemma contains_char_rev_aux c x : forall a,
+  contains_char c (str_rev_aux x a) = contains_char c x || contains_char c a.
+Proof.
+  induction x as [|d x IH]; intros a; cbn.
+  - reflexivity.
+  - rewrite IH. cbn. destruct (Ascii.eqb c d), (contains_char c x), (contains_char c a); reflexivity.
+Qed.
+
+(** every field produced by [split_on] is separator-free *)
+Lemma split_on_fields_free c s : forall cur,
+  contains_char c cur = false -> Forall (sep_free c) (split_on c s cur).
+Proof.
+  induction s as [|d s IH]; intros cur Hc; cbn.
+  - constructor; [|constructor]. unfold sep_free, str_rev.
+    rewrite contains_char_rev_aux. rewrite Hc. reflexivity.
+  - destruct (Ascii.eqb c d) eqn:E.
+    + constructor.
+      * unfold sep_free, str_rev. rewrite contains_char_rev_aux. rewrite Hc. reflexivity.
+      * apply IH. reflexivity.
+    + apply IH. cbn. rewrite E, Hc. reflexivity.
+Qed.
+
+(** * Paths *)
+
+Definition clean_seg (x : string) : Prop :=
+  dot_seg x = false /\ (x =? "..") = false /\ sep_free SLASH x.
+
+Lemma Forall_tl {A} (P : A -> Prop) l : Forall P l -> Forall P (tl l).
+Proof. destruct l; cbn; intros H; [constructor|inversion H; assumption]. Qed.
+
+Lemma Forall_removelast {A} (P : A -> Prop) l : Forall P l -> Forall P (removelast l).
+Proof.
+  induction l as [|x r IH]; cbn; intros H; [constructor|].
+  inversion H; subst. destruct r; [constructor|]. constructor; auto.
+Qed.
+
+Lemma norm_segs_clean l : forall acc,
+  Forall (sep_free SLASH) l -> Forall clean_seg acc -> Forall clean_seg (norm_segs l acc).
+Proof.
+  induction l as [|x r IH]; intros acc Hl Ha; cbn.
+  - apply Forall_rev. exact Ha.
+  - inversion Hl; subst.
+    destruct (dot_seg x) eqn:Ed; [apply IH; assumption|].
+    destruct (x =? "..") eqn:Eu.
+    + apply IH; [assumption|apply Forall_tl; exact Ha].
+    + apply IH; [assumption|]. constructor; [|exact Ha]. repeat split; assumption.
+Qed.
+
+Lemma norm_segs_of_clean l : forall acc,
+  Forall clean_seg l -> norm_segs l acc = (rev acc ++ l)%list.
+Proof.
+  induction l as [|x r IH]; intros acc H; cbn.
+  - rewrite app_nil_r. reflexivity.
+  - inversion H as [|? ? [Hd [Hu _]] Hr]; subst. rewrite Hd, Hu.
+    rewrite IH by assumption. cbn. rewrite <- app_assoc. reflexivity.
+Qed.
+
+Lemma segs_abs_of_segs l :
+  l <> [] -> Forall (sep_free SLASH) l -> segs (abs_of_segs l) = "" :: l.
+Proof.
+  intros Hne Hall. unfold segs, abs_of_segs.
+  change ("/" ++ join "/" l) with (String SLASH (join (String SLASH "") l)).
+  cbn [split_on]. rewrite Ascii.eqb_refl. cbn [str_rev str_rev_aux].
+  f_equal. apply split_on_join; assumption.
+Qed.
+
+(** resolving an already resolved path changes nothing *)
+Lemma norm_segs_abs_of_segs l :
+  Forall clean_seg l -> norm_segs (segs (abs_of_segs l)) [] = l.
+Proof.
+  intros H. destruct l as [|x r].
+  - reflexivity.
+  - rewrite segs_abs_of_segs.
+    + change (norm_segs ("" :: x :: r) []) with (norm_segs (x :: r) []).
+      rewrite norm_segs_of_clean by exact H. reflexivity.
+    + congruence.
+    + eapply Forall_impl; [|exact H]. intros a [_ [_ Ha]]. exact Ha.
+Qed.
+
+Lemma segs_fields_free s : Forall (sep_free SLASH) (segs s).
+Proof. apply split_on_fields_free. reflexivity. Qed.
+
+Lemma norm_segs_segs_clean s : Forall clean_seg (norm_segs (segs s) []).
+Proof. apply norm_segs_clean; [apply segs_fields_free|constructor]. Qed.
+
+Lemma norm_abs_idem s : norm_abs (norm_abs s) = norm_abs s.
+Proof.
+  unfold norm_abs at 1. unfold norm_abs at 1.
+  rewrite norm_segs_abs_of_segs by apply norm_segs_segs_clean. reflexivity.
+Qed.
+
+Lemma is_abs_abs_of_segs l : is_abs (abs_of_segs l) = true.
+Proof.
+  unfold is_abs, abs_of_segs, startswith. cbn. destruct (join "/" l); reflexivity.
+Qed.
+
+(** [Path(dir).resolve() == dir] for the directory of a resolved file: the parent the file
+    loader records needs no further resolution *)
+Lemma resolve_dirname cwd p : resolve cwd (dirname p) = dirname p.
+Proof.
+  unfold resolve, dirname. rewrite is_abs_abs_of_segs. unfold norm_abs.
+  rewrite norm_segs_abs_of_segs; [reflexivity|].
+  apply Forall_removelast. apply norm_segs_segs_clean.
+Qed.
+
+(** * find_first: the first existing candidate, nothing existing before it *)
+
+Lemma find_first_some f fname dirs p :
+  find_first f fname dirs = Some p ->
+  exists pre d post, dirs = (pre ++ d :: post)%list /\ p = joinpath d fname /\ f p = true
+                     /\ Forall (fun d' => f (joinpath d' fname) = false) pre.
+Proof.
+  induction dirs as [|d r IH]; cbn; intros H; [discriminate|].
+  destruct (f (joinpath d fname)) eqn:E.
+  - inversion H; subst. exists [], d, r. repeat split; auto.
+  - destruct (IH H) as (pre & d' & post & -> & -> & Hf & Hpre).
+    exists (d :: pre), d', post. repeat split; auto.
+Qed.
+
+Lemma find_first_none f fname dirs :
+  find_first f fname dirs = None <-> Forall (fun d => f (joinpath d fname) = false) dirs.
+Proof.
+  induction dirs as [|d r IH]; cbn.
+  - split; [constructor|reflexivity].
+  - destruct (f (joinpath d fname)) eqn:E.
+    + split; [discriminate|]. intros H. inversion H; congruence.
+    + rewrite IH. split; intros H; [constructor; assumption|inversion H; assumption].
+Qed.
+
+Lemma find_first_found_iff f fname dirs :
+  (exists p, find_first f fname dirs = Some p) <->
+  Exists (fun d => f (joinpath d fname) = true) dirs.
+Proof.
+  induction dirs as [|d r IH]; cbn.
+  - split; [intros [p H]; discriminate|intros H; inversion H].
+  - destruct (f (joinpath d fname)) eqn:E.
+    + split; [intros _; left; exact E|intros _; eexists; reflexivity].
+    + rewrite IH. split; [intros H; right; exact H|].
+      intros H. inversion H; subst; [congruence|assumption].
+Qed.
+
+(** completeness: prefix with nothing existing, then an existing one *)
+Lemma find_first_intro f fname pre d post :
+  Forall (fun d' => f (joinpath d' fname) = false) pre -> f (joinpath d fname) = true ->
+  find_first f fname (pre ++ d :: post) = Some (joinpath d fname).
+Proof.
+  induction pre as [|x r IH]; cbn; intros Hp Hd.
+  - rewrite Hd. reflexivity.
+  - inversion Hp; subst. rewrite H1. apply IH; assumption.
+Qed.
+
+(** * The code's list versus the documented order *)
+
+(** a regular file below the parent directory implies that directory exists *)
+Definition parent_wf (e : env) (parent : pyparent) (fname : string) : Prop :=
+  let p := resolve (e_cwd e) (p_str parent) in
+  e_is_file e (joinpath p fname) = true -> e_exists e p = true.
+
+Lemma search_eq_documented e parent fname :
+  parent_wf e parent fname ->
+  find_first (e_is_file e) fname (search_locations e parent)
+  = find_first (e_is_file e) fname (documented_order e parent).
+Proof.
+  unfold parent_wf, search_locations, documented_order, parent_locs. intros Hwf.
+  destruct (p_truthy parent); [|reflexivity].
+  set (p := resolve (e_cwd e) (p_str parent)) in *.
+  destruct (e_exists e p) eqn:Ex.
+  - destruct (p =? e_cwd e) eqn:Ec.
+    + apply String.eqb_eq in Ec. rewrite Ec. cbn.
+      destruct (e_is_file e (joinpath (e_cwd e) fname)); reflexivity.
+    + reflexivity.
+  - cbn. destruct (e_is_file e (joinpath p fname)) eqn:Ef.
+    + specialize (Hwf eq_refl). congruence.
+    + reflexivity.
+Qed.
+
+(** every location the code searches is a documented one, in the same relative order *)
+Lemma search_locations_sub e parent :
+  exists pre, (pre = [] \/ pre = [resolve (e_cwd e) (p_str parent)]) /\
+              documented_order e parent = (pre ++ [e_cwd e; cwd_pipelines e; e_builtin e])%list /\
+              exists pre', (pre' = [] \/ pre' = pre) /\
+              search_locations e parent = (pre' ++ [e_cwd e; cwd_pipelines e; e_builtin e])%list.
+Proof.
+  unfold documented_order, search_locations, parent_locs.
+  destruct (p_truthy parent).
+  - eexists. split; [right; reflexivity|]. split; [reflexivity|].
+    destruct (e_exists e _); [destruct (_ =? _)|]; eexists; split; try reflexivity; auto.
+  - exists []. split; [auto|]. split; [reflexivity|]. exists []. auto.
+Qed.
+
+(** * get_pipeline_path *)
+
+Lemma get_pipeline_path_relative e name parent :
+  is_abs (name ++ ".yaml") = false ->
+  get_pipeline_path e name parent =
+  match find_first (e_is_file e) (name ++ ".yaml") (search_locations e parent) with
+  | Some p => Ok (norm_abs p)
+  | None => Err PNF (not_found_msg (name ++ ".yaml") (search_locations e parent))
+  end.
+Proof. unfold get_pipeline_path. intros ->. reflexivity. Qed.
+
+Theorem first_existing e name parent :
+  let fname := name ++ ".yaml" in
+  is_abs fname = false -> parent_wf e parent fname ->
+  match get_pipeline_path e name parent with
+  | Ok p => exists pre d post,
+        documented_order e parent = (pre ++ d :: post)%list /\
+        p = norm_abs (joinpath d fname) /\
+        e_is_file e (joinpath d fname) = true /\
+        Forall (fun d' => e_is_file e (joinpath d' fname) = false) pre
+  | Err n m => n = PNF /\ m = not_found_msg fname (search_locations e parent) /\
+               Forall (fun d => e_is_file e (joinpath d fname) = false) (documented_order e parent)
+  | Unsup => False
+  end.
+Proof.
+  intros fname Habs Hwf. rewrite get_pipeline_path_relative by exact Habs.
+  fold fname. rewrite (search_eq_documented e parent fname Hwf).
+  destruct (find_first _ _ (documented_order e parent)) as [p|] eqn:E.
+  - destruct (find_first_some _ _ _ _ E) as (pre & d & post & Hd & -> & Hf & Hpre).
+    exists pre, d, post. repeat split; auto.
+  - repeat split; auto. apply find_first_none. exact E.
+Qed.
+
+(** converse: if some documented location holds the file, the look-up succeeds *)
+Theorem existing_is_found e name parent :
+  let fname := name ++ ".yaml" in
+  is_abs fname = false -> parent_wf e parent fname ->
+  Exists (fun d => e_is_file e (joinpath d fname) = true) (documented_order e parent) ->
+  exists p, get_pipeline_path e name parent = Ok p.
+Proof.
+  intros fname Habs Hwf Hex. rewrite get_pipeline_path_relative by exact Habs.
+  fold fname. rewrite (search_eq_documented e parent fname Hwf).
+  apply find_first_found_iff in Hex. destruct Hex as [p ->]. eexists; reflexivity.
+Qed.
+
+(** absolute names: only the path itself decides, whatever else exists, whatever the parent *)
+Theorem absolute_only e name parent :
+  is_abs (name ++ ".yaml") = true ->
+  get_pipeline_path e name parent =
+  if e_is_file e (name ++ ".yaml") then Ok (norm_abs (name ++ ".yaml"))
+  else Err PNF (abs_missing_msg (name ++ ".yaml")).
+Proof. unfold get_pipeline_path. intros ->. reflexivity. Qed.
+
+Theorem absolute_nowhere_else e e' name parent parent' :
+  is_abs (name ++ ".yaml") = true ->
+  e_is_file e (name ++ ".yaml") = e_is_file e' (name ++ ".yaml") ->
+  get_pipeline_path e name parent = get_pipeline_path e' name parent'.
+Proof. intros Ha Hf. rewrite !absolute_only by exact Ha. rewrite Hf. reflexivity. Qed.
+
+(** * The not-found message *)
+
+Definition NL : ascii := ascii_of_nat 10.
+Definition lines (s : string) : list string := split_on NL s "".
+
+Theorem not_found_lists_all e name parent :
+  let fname := name ++ ".yaml" in
+  is_abs fname = false ->
+  Forall (fun d => e_is_file e (joinpath d fname) = false) (search_locations e parent) ->
+  get_pipeline_path e name parent = Err PNF (not_found_msg fname (search_locations e parent)).
+Proof.
+  intros fname Habs Hall. rewrite get_pipeline_path_relative by exact Habs. fold fname.
+  apply find_first_none in Hall. rewrite Hall. reflexivity.
+Qed.
+
+Lemma search_locations_nonempty e parent : search_locations e parent <> [].
+Proof. unfold search_locations. destruct (parent_locs e parent); cbn; congruence. Qed.
+
+(** the message, line by line: a header naming the file, then exactly the searched
+    locations in search order (for names and directories without a newline) *)
+Theorem not_found_msg_lines fname dirs :
+  dirs <> [] -> sep_free NL fname -> Forall (sep_free NL) dirs ->
+  lines (not_found_msg fname dirs) = (fname ++ " not found in any of the following:") :: dirs.
+Proof.
+  intros Hne Hf Hd. unfold lines, not_found_msg.
+  rewrite <- app_assoc_s.
+  change (nl ++ join nl dirs) with (String NL (join (String NL "") dirs)).
+  rewrite split_on_app.
+  - rewrite str_rev_rev_onto. f_equal. apply split_on_join; assumption.
+  - clear -Hf. unfold sep_free in *.
+    induction fname as [|c s IH]; cbn in *; [reflexivity|].
+    apply orb_false_iff in Hf. destruct Hf as [-> Hs]. cbn. apply IH. exact Hs.
+Qed.
+
+(** * add_sys_path *)
+
+Lemma existsb_pp_eqb_refl p l : In p l -> existsb (pp_eqb p) l = true.
+Proof.
+  intros H. apply existsb_exists. exists p. split; [exact H|].
+  destruct p; cbn; auto using String.eqb_refl.
+Qed.
+
+Lemma pp_eqb_eq a b : pp_eqb a b = true -> a = b.
+Proof.
+  destruct a, b; cbn; try discriminate; auto; intros H; apply String.eqb_eq in H; congruence.
+Qed.
+
+Lemma add_sys_path_known e st p : In p (known (add_sys_path e st p)).
+Proof.
+  unfold add_sys_path. destruct (existsb (pp_eqb p) (known st)) eqn:E.
+  - apply existsb_exists in E. destruct E as (q & Hq & Heq). apply pp_eqb_eq in Heq. subst. exact Hq.
+  - destruct (negb _); cbn; auto.
+Qed.
+
+Theorem add_sys_path_idempotent e st p :
+  add_sys_path e (add_sys_path e st p) p = add_sys_path e st p.
+Proof.
+  unfold add_sys_path at 1.
+  rewrite existsb_pp_eqb_refl by apply add_sys_path_known. reflexivity.
+Qed.
+
+(** sys.path is only ever extended at the end, by at most the one directory *)
+Theorem add_sys_path_appends e st p :
+  syspath (add_sys_path e st p) = syspath st \/
+  (syspath (add_sys_path e st p) = (syspath st ++ [p_str p])%list /\
+   str_in (p_str p) (syspath st) = false /\
+   e_exists e (resolve (e_cwd e) (p_str p)) = true).
+Proof.
+  unfold add_sys_path. destruct (existsb _ _); [left; reflexivity|].
+  destruct (e_exists e _) eqn:Ex; cbn; [|left; reflexivity].
+  destruct (str_in _ _) eqn:Es; [left; reflexivity|right; auto].
+Qed.
+
+Lemma str_in_In s l : str_in s l = true <-> In s l.
+Proof.
+  induction l as [|x r IH]; cbn; [split; [discriminate|tauto]|].
+  rewrite orb_true_iff, IH, String.eqb_eq. split; intros [H|H]; auto.
+Qed.
+
+Lemma add_sys_path_incl e st p s : In s (syspath st) -> In s (syspath (add_sys_path e st p)).
+Proof.
+  intros H. destruct (add_sys_path_appends e st p) as [->|[-> _]]; [exact H|].
+  apply in_or_app. left. exact H.
+Qed.
+
+(** never a duplicate *)
+Theorem add_sys_path_nodup e st p : NoDup (syspath st) -> NoDup (syspath (add_sys_path e st p)).
+Proof.
+  intros H. destruct (add_sys_path_appends e st p) as [->|[-> [Hn _]]]; [exact H|].
+  apply NoDup_rev in H. rewrite <- (rev_involutive (_ ++ _)). apply NoDup_rev.
+  rewrite rev_app_distr. cbn. constructor; [|exact H].
+  rewrite <- in_rev. intros Hin. apply str_in_In in Hin. congruence.
+Qed.
+
+(** invariant tying [_known_dirs] to sys.path (true initially, kept by [add_sys_path] on a
+    static file system): a known directory that exists is on sys.path *)
+Definition sys_inv (e : env) (st : sysst) : Prop :=
+  forall p, In p (known st) -> e_exists e (resolve (e_cwd e) (p_str p)) = true ->
+            In (p_str p) (syspath st).
+
+Lemma sys_inv_init e : sys_inv e sys0.
+Proof. intros p []. Qed.
+
+Lemma add_sys_path_inv e st p : sys_inv e st -> sys_inv e (add_sys_path e st p).
+Proof.
+  intros Hinv q Hq Hex. unfold add_sys_path in *.
+  destruct (existsb (pp_eqb p) (known st)); [apply Hinv; assumption|].
+  destruct (e_exists e (resolve (e_cwd e) (p_str p))) eqn:Ex; cbn in *.
+  - destruct Hq as [<-|Hq].
+    + destruct (str_in _ _) eqn:Es; [apply str_in_In; exact Es|].
+      apply in_or_app. right. left. reflexivity.
+    + specialize (Hinv q Hq Hex).
+      destruct (str_in _ _); [exact Hinv|apply in_or_app; left; exact Hinv].
+  - destruct Hq as [<-|Hq]; [congruence|apply Hinv; assumption].
+Qed.
+
+Theorem add_sys_path_present e st p :
+  sys_inv e st -> e_exists e (resolve (e_cwd e) (p_str p)) = true ->
+  In (p_str p) (syspath (add_sys_path e st p)).
+Proof.
+  intros Hinv Hex. apply (add_sys_path_inv e st p Hinv p); [apply add_sys_path_known|exact Hex].
+Qed.
+
+(** * Loading with the file loader *)
+
+Lemma load_pipeline_path e st l k name parent st' d :
+  load_pipeline e st l k name parent = Ok (st', d) ->
+  get_pipeline_path e name parent = Ok (d_file d).
+Proof.
+  unfold load_pipeline. destruct (get_pipeline_path e name parent) as [path| |]; cbn; try discriminate.
+  destruct k; intros H; inversion H; reflexivity.
+Qed.
+
+(** whatever the name, the parent handed in and the depth of the call: a pipeline loaded by
+    the file loader records ITS OWN directory as parent, cascading, and that directory has
+    been added to sys.path *)
+Theorem load_file_info e st name parent st' d :
+  load_pipeline e st FILE_LOADER LFile name parent = Ok (st', d) ->
+  d_info d = file_info (d_file d) /\ d_is_file_info d = true /\
+  st' = add_sys_path e st (PPath (dirname (d_file d))).
+Proof.
+  unfold load_pipeline. destruct (get_pipeline_path e name parent) as [path| |]; cbn; try discriminate.
+  intros H. inversion H. cbn. auto.
+Qed.
+
+Theorem load_file_dir_on_sys_path e st name parent st' d :
+  load_pipeline e st FILE_LOADER LFile name parent = Ok (st', d) ->
+  sys_inv e st -> e_exists e (dirname (d_file d)) = true ->
+  In (dirname (d_file d)) (syspath st') /\ sys_inv e st'.
+Proof.
+  intros H Hinv Hex. destruct (load_file_info _ _ _ _ _ _ H) as (_ & _ & ->).
+  split; [|apply add_sys_path_inv; exact Hinv].
+  apply (add_sys_path_present e st (PPath (dirname (d_file d))) Hinv).
+  cbn [p_str]. rewrite resolve_dirname. exact Hex.
+Qed.
+
+(** a module file next to the pipeline is then found by the import *)
+Theorem sibling_module_importable e sp dir m :
+  In dir sp -> is_abs dir = true -> e_is_file e (joinpath dir (m ++ ".py")) = true ->
+  exists mp, find_module e sp m = Some mp.
+Proof.
+  intros Hin Ha Hf. unfold find_module. apply find_first_found_iff.
+  apply Exists_exists. exists dir. split; [|exact Hf].
+  apply in_map_iff. exists dir. rewrite Ha. auto.
+Qed.
+
+(** * The cascade of get_arguments *)
+
+Theorem child_default_cascades info :
+  i_lcasc info = true -> i_pcasc info = true ->
+  child_loader info default_opts = Some (i_loader info) /\
+  child_parent info default_opts = i_parent info.
+Proof.
+  intros Hl Hp. unfold child_parent, child_loader, default_opts. cbn. rewrite Hl, Hp.
+  rewrite String.eqb_refl. auto.
+Qed.
+
+Theorem optout_resolve_false info o :
+  o_resolve o = Some false -> o_parent o = Absent -> child_parent info o = PNone.
+Proof. unfold child_parent. intros -> ->. reflexivity. Qed.
+
+Theorem optout_explicit_parent info o s :
+  o_parent o = Given s -> child_parent info o = PStr s.
+Proof. unfold child_parent. intros ->. reflexivity. Qed.
+
+Theorem optout_null_parent info o :
+  o_parent o = Null -> child_parent info o = PNone.
+Proof. unfold child_parent. intros ->. reflexivity. Qed.
+
+Theorem optout_other_loader info o l :
+  o_loader o = Given l -> l <> i_loader info -> o_parent o = Absent ->
+  child_parent info o = PNone /\ child_loader info o = Some l.
+Proof.
+  unfold child_parent, child_loader. intros -> Hne ->.
+  apply String.eqb_neq in Hne. rewrite Hne, andb_false_r. auto.
+Qed.
+
+Theorem optout_null_loader info o :
+  o_loader o = Null -> o_parent o = Absent -> child_parent info o = PNone.
+Proof. unfold child_parent, child_loader. intros -> ->. rewrite andb_false_r. reflexivity. Qed.
+
+Theorem same_loader_still_cascades info o :
+  o_loader o = Given (i_loader info) -> o_resolve o = None -> o_parent o = Absent ->
+  i_pcasc info = true -> child_parent info o = i_parent info.
+Proof.
+  unfold child_parent, child_loader. intros -> -> -> ->. rewrite String.eqb_refl. reflexivity.
+Qed.
+
+Theorem no_parent_cascade_flag info o :
+  i_pcasc info = false -> o_resolve o = None -> o_parent o = Absent -> child_parent info o = PNone.
+Proof. unfold child_parent. intros -> -> ->. reflexivity. Qed.
+
+Theorem no_loader_cascade_flag info o :
+  i_lcasc info = false -> o_loader o = Absent -> o_parent o = Absent ->
+  child_loader info o = None /\ child_parent info o = PNone.
+Proof.
+  unfold child_parent, child_loader. intros -> -> ->. rewrite andb_false_r. auto.
+Qed.
+
+(** the child of a file-loaded pipeline, with no option set, is searched for in that
+    pipeline's directory first, then cwd, cwd/pipelines, built-in *)
+Theorem child_parent_first e st name parent st' d :
+  load_pipeline e st FILE_LOADER LFile name parent = Ok (st', d) ->
+  child_loader (d_info d) default_opts = Some FILE_LOADER /\
+  child_parent (d_info d) default_opts = PPath (dirname (d_file d)) /\
+  documented_order e (child_parent (d_info d) default_opts)
+  = [dirname (d_file d); e_cwd e; cwd_pipelines e; e_builtin e].
+Proof.
+  intros H. destruct (load_file_info _ _ _ _ _ _ H) as (Hi & _ & _).
+  rewrite Hi. destruct (child_default_cascades (file_info (d_file d)) eq_refl eq_refl) as [Hl Hp].
+  split; [exact Hl|]. split; [exact Hp|].
+  rewrite Hp. unfold documented_order. cbn [p_truthy p_str file_info i_parent].
+  rewrite resolve_dirname. reflexivity.
+Qed.
+
+(** with any of the opt-outs the parent directory is not a location at all *)
+Theorem no_parent_order e : documented_order e PNone = [e_cwd e; cwd_pipelines e; e_builtin e]
+                            /\ search_locations e PNone = [e_cwd e; cwd_pipelines e; e_builtin e].
+Proof. split; reflexivity. Qed.
+
+(** * The per-loader pipeline cache *)
+
+Lemma cache_find_in l key c d : cache_find l key c = Some d -> In (l, key, d) c.
+Proof.
+  induction c as [|[[l' k'] d'] r IH]; cbn; [discriminate|].
+  destruct ((l =? l') && (key =? k')) eqn:E.
+  - intros H. inversion H; subst. apply andb_true_iff in E. destruct E as [E1 E2].
+    apply String.eqb_eq in E1, E2. subst. left. reflexivity.
+  - intros H. right. apply IH. exact H.
+Qed.
+
+(** every entry was produced by a real load for SOME request with that key *)
+Definition cache_genuine (e : env) (c : pcache) : Prop :=
+  forall l key d, In (l, key, d) c ->
+    exists k name parent st st', key = cache_key parent name /\
+                                 load_pipeline e st l k name parent = Ok (st', d).
+
+(** no other request shares the key of (name, parent) — what the key format cannot ensure *)
+Definition collision_free (e : env) (c : pcache) (name : string) (parent : pyparent) : Prop :=
+  forall l key d, In (l, key, d) c -> key = cache_key parent name ->
+    forall name' parent', key = cache_key parent' name' ->
+      get_pipeline_path e name' parent' = get_pipeline_path e name parent.
+
+Theorem cached_lookup_partial e st l k name parent st' d :
+  cache_genuine e (s_cache st) -> collision_free e (s_cache st) name parent ->
+  get_pipeline e st l k name parent = Ok (st', d) ->
+  get_pipeline_path e name parent = Ok (d_file d).
+Proof.
+  unfold get_pipeline. intros Hg Hc.
+  destruct (cache_find l (cache_key parent name) (s_cache st)) as [d0|] eqn:E.
+  - intros H. inversion H; subst. apply cache_find_in in E.
+    destruct (Hg _ _ _ E) as (k' & name' & parent' & s1 & s2 & Hk & Hl).
+    rewrite <- (Hc _ _ _ E eq_refl name' parent' Hk).
+    eapply load_pipeline_path. exact Hl.
+  - destruct (load_pipeline e (s_sys st) l k name parent) as [[s2 d2]| |] eqn:El; cbn; try discriminate.
+    intros H. inversion H; subst. eapply load_pipeline_path. exact El.
+Qed.
+
+(** genuineness is kept by get_pipeline (so it holds of every reachable cache) *)
+Theorem get_pipeline_genuine e st l k name parent st' d :
+  cache_genuine e (s_cache st) -> get_pipeline e st l k name parent = Ok (st', d) ->
+  cache_genuine e (s_cache st').
+Proof.
+  unfold get_pipeline. intros Hg.
+  destruct (cache_find _ _ _) eqn:E.
+  - intros H. inversion H; subst. exact Hg.
+  - destruct (load_pipeline e (s_sys st) l k name parent) as [[s2 d2]| |] eqn:El; cbn; try discriminate.
+    intros H. inversion H; subst. cbn. intros l' key' d' [Hin|Hin].
+    + inversion Hin; subst. exists k, name, parent, (s_sys st), s2. auto.
+    + apply Hg. exact Hin.
+Qed.
+
+(** the witness: a directory [/x+a] next to [/x], pipelines [a+b] and [b] *)
+Definition wit_env : env :=
+  mk_env "/cwd" "pipelines" "/blt" ["/x/a+b.yaml"; "/x+a/b.yaml"]
+         ["/"; "/x"; "/x+a"; "/cwd"; "/x/a+b.yaml"; "/x+a/b.yaml"].
+
+Definition wit_def : pdef :=
+  {| d_file := "/x/a+b.yaml"; d_is_file_info := true; d_info := file_info "/x/a+b.yaml" |}.
+
+Definition wit_state : state :=
+  {| s_sys := add_sys_path wit_env sys0 (PPath "/x");
+     s_cache := [(FILE_LOADER, "/x+a+b", wit_def)] |}.
+
+Lemma wit_genuine : cache_genuine wit_env (s_cache wit_state).
+Proof.
+  intros l key d [H|[]]. inversion H; subst.
+  exists LFile, "a+b", (PPath "/x"), sys0, (add_sys_path wit_env sys0 (PPath "/x")).
+  split; reflexivity.
+Qed.
+
+Theorem cached_lookup_refuted :
+  exists e st l k name parent st' d,
+    cache_genuine e (s_cache st) /\
+    get_pipeline e st l k name parent = Ok (st', d) /\
+    get_pipeline_path e name parent = Ok "/x+a/b.yaml" /\
+    d_file d = "/x/a+b.yaml".
+Proof.
+  exists wit_env, wit_state, FILE_LOADER, LFile, "b", (PPath "/x+a"), wit_state, wit_def.
+  split; [exact wit_genuine|]. repeat split; reflexivity.
+Qed.
+
+(** * Invariants of a whole run *)
+
+Definition st_inv (e : env) (st : state) : Prop :=
+  sys_inv e (s_sys st) /\ cache_genuine e (s_cache st).
+
+Lemma get_pipeline_inv e st l k name parent st' d :
+  st_inv e st -> get_pipeline e st l k name parent = Ok (st', d) -> st_inv e st'.
+Proof.
+  intros [Hs Hc] H. split; [|eapply get_pipeline_genuine; eassumption].
+  unfold get_pipeline in H. destruct (cache_find _ _ _).
+  - inversion H; subst. exact Hs.
+  - unfold load_pipeline in H.
+    destruct (get_pipeline_path e name parent); cbn in H; try discriminate.
+    destruct k; inversion H; subst; cbn; try exact Hs. apply add_sys_path_inv. exact Hs.
+Qed.
+
+Lemma run_calls_inv e (rec : rec_t) :
+  (forall st l pd n p, st_inv e st -> st_inv e (fst (fst (rec st l pd n p)))) ->
+  forall calls st info, st_inv e st -> st_inv e (fst (fst (run_calls rec st info calls))).
+Proof.
+  intros Hrec. induction calls as [|c r IH]; intros st info Hi; cbn; [exact Hi|].
+  specialize (Hrec st (child_loader info (c_opts c)) (o_pydir (c_opts c)) (c_name c)
+                   (child_parent info (c_opts c)) Hi).
+  destruct (rec st _ _ _ _) as [[st1 ev1] s1]. cbn in Hrec.
+  destruct s1; cbn; try exact Hrec.
+  specialize (IH st1 info Hrec). destruct (run_calls rec st1 info r) as [[st2 ev2] s2]. exact IH.
+Qed.
+
+(** from the initial state, every state a run goes through satisfies the invariant: all
+    loads of a chain of any depth happen with [_known_dirs] consistent and a genuine cache *)
+Theorem run_pipeline_inv fuel w : forall st l pd n p,
+  st_inv (w_env w) st -> st_inv (w_env w) (fst (fst (run_pipeline fuel w st l pd n p))).
+Proof.
+  induction fuel as [|f IH]; intros st l pd n p Hi; cbn; [exact Hi|].
+  destruct (negb (name_ok n)); [exact Hi|].
+  set (sys1 := match pd with
+               | Some d => if d =? "" then s_sys st else add_sys_path (w_env w) (s_sys st) (PStr d)
+               | None => s_sys st end).
+  assert (Hi1 : st_inv (w_env w) {| s_sys := sys1; s_cache := s_cache st |}).
+  { destruct Hi as [Hs Hc]. split; [|exact Hc]. cbn. subst sys1.
+    destruct pd as [d|]; [destruct (d =? "")|]; auto using add_sys_path_inv. }
+  destruct (loader_kind (effective_loader l)) as [k|]; [|exact Hi1].
+  destruct (get_pipeline _ _ _ _ _ _) as [[st2 d]| |] eqn:Eg; try exact Hi1.
+  pose proof (get_pipeline_inv _ _ _ _ _ _ _ _ Hi1 Eg) as Hi2.
+  destruct (w_content w (d_file d)) as [pp|]; [|exact Hi2].
+  pose proof (run_calls_inv (w_env w) (run_pipeline f w) IH (p_calls pp) st2 (d_info d) Hi2) as Hc.
+  destruct (p_mod pp) as [m|].
+  - destruct (find_module _ _ _); [|exact Hi2].
+    destruct (run_calls _ _ _ _) as [[st3 ev] s3]. exact Hc.
+  - destruct (run_calls _ _ _ _) as [[st3 ev] s3]. exact Hc.
+Qed.
+
+Lemma st_inv_init e : st_inv e state0.
+Proof. split; [apply sys_inv_init|intros l k d []]. Qed.
